@@ -110,29 +110,30 @@ fn get_offset_and_len<F: FnOnce() -> usize>(
     }
 }
 
+/// Yields the indexes selected by a slice with a negative step, following
+/// the normalization rules of Python's `slice.indices`.
 fn range_step_backwards(
     start: Option<i64>,
     stop: Option<i64>,
-    step: usize,
+    step: i64,
     end: usize,
 ) -> impl Iterator<Item = usize> {
-    let start = match start {
-        None => end.saturating_sub(1),
-        Some(start) if start >= end as i64 => end.saturating_sub(1),
-        Some(start) if start >= 0 => start as usize,
-        Some(start) => (end as i64 + start).max(0) as usize,
+    debug_assert!(step < 0);
+    let len = end as i128;
+    let normalize = |bound: Option<i64>, default: i128| match bound {
+        None => default,
+        Some(bound) if bound < 0 => (bound as i128 + len).max(-1),
+        Some(bound) => (bound as i128).min(len - 1),
     };
-    let stop = match stop {
-        None => 0,
-        Some(stop) if stop < 0 => (end as i64 + stop).max(0) as usize,
-        Some(stop) => stop as usize,
-    };
-    let length = if stop == 0 {
-        (start + step) / step
+    let start = normalize(start, len - 1);
+    let stop = normalize(stop, -1);
+    let step = -(step as i128);
+    let count = if start > stop {
+        (start - stop - 1) / step + 1
     } else {
-        (start - stop + step - 1) / step
+        0
     };
-    (stop..=start).rev().step_by(step).take(length)
+    (0..count).map(move |n| (start - n * step) as usize)
 }
 
 pub fn slice(value: Value, start: Value, stop: Value, step: Value) -> Result<Value, Error> {
@@ -180,7 +181,7 @@ pub fn slice(value: Value, start: Value, stop: Value, step: Value) -> Result<Val
             } else {
                 let chars: Vec<char> = s.chars().collect();
                 Ok(Value::from(
-                    range_step_backwards(start, stop, -step as usize, chars.len())
+                    range_step_backwards(start, stop, step, chars.len())
                         .map(move |i| chars[i])
                         .collect::<String>(),
                 ))
@@ -199,7 +200,7 @@ pub fn slice(value: Value, start: Value, stop: Value, step: Value) -> Result<Val
                 ))
             } else {
                 Ok(Value::from_bytes(
-                    range_step_backwards(start, stop, -step as usize, b.len())
+                    range_step_backwards(start, stop, step, b.len())
                         .map(|i| b[i])
                         .collect::<Vec<u8>>(),
                 ))
@@ -221,7 +222,7 @@ pub fn slice(value: Value, start: Value, stop: Value, step: Value) -> Result<Val
                         .step_by(step as usize)
                         .collect()
                 } else {
-                    range_step_backwards(start, stop, -step as usize, values.len())
+                    range_step_backwards(start, stop, step, values.len())
                         .map(|idx| values[idx].clone())
                         .collect()
                 };
@@ -243,7 +244,7 @@ pub fn slice(value: Value, start: Value, stop: Value, step: Value) -> Result<Val
                     if let Some(iter) = obj.try_iter() {
                         let vec: Vec<Value> = iter.collect();
                         Box::new(
-                            range_step_backwards(start, stop, -step as usize, vec.len())
+                            range_step_backwards(start, stop, step, vec.len())
                                 .map(move |i| vec[i].clone()),
                         )
                     } else {
